@@ -4,7 +4,9 @@ package c14ref
 //
 //	ok        normal return
 //	throw     a script-catchable exception carrying payload P (a value with identity)
-//	intr/ovf  interrupt / stack overflow: invisible to script catch/finally and to iterator closing, returned as an
+//	intr/ovf  interrupt / stack overflow: invisible to script catch/finally and to iterator closing — also when a native
+//	          returns it wrapped in another error (%w, errors.Join, custom Unwrap: "uncatchable" is a property of the
+//	          whole Unwrap chain, the host then finds it with errors.As) — returned as an
 //	          error by RunProgram/Callable/Constructor (and the func gateways built on them), a Go panic through Try/Get/ForOf/New
 //	foreign   a non-goja Go panic: passes through everything unchanged up to the host
 //
@@ -289,9 +291,29 @@ func (m *model) goFrame(i int, c comp) comp {
 	case "ok", "foreign", "intr":
 		return c
 	case "ovf":
-		if f.B == "swallowall" && ExitReturnsUncatchable(f.X) {
+		// a native that was handed the *StackOverflowError may drop it or answer with something else; returning it
+		// as is or wrapped, or panicking with it, keeps it uncatchable. (An interrupt can be neither dropped nor replaced:
+		// the flag stays set until the outermost return.)
+		if !ExitReturnsUncatchable(f.X) {
+			return c
+		}
+		switch f.B {
+		case "swallowall":
 			m.emit(Event{K: "g", F: i, P: -1, Ovf: true})
 			return comp{kind: "ok"}
+		case "replaceval":
+			m.emit(Event{K: "g", F: i, P: -1, Ovf: true})
+			q := m.newPayload(i+1, f.Rep, site)
+			if f.Rep == "goerror" {
+				k := "r" + itoa(i)
+				q.GoErr, q.ErrKey, q.IsKeys = true, k, []string{k}
+			}
+			return comp{kind: "throw", p: i + 1, line: site}
+		case "replaceerr":
+			m.emit(Event{K: "g", F: i, P: -1, Ovf: true})
+			k := "r" + itoa(i)
+			m.lazyGoErr(i+1, k, []string{k}, site)
+			return comp{kind: "throw", p: i + 1, line: site}
 		}
 		return c
 	}
@@ -336,9 +358,13 @@ func (m *model) goFrame(i int, c comp) comp {
 		k := "r" + itoa(i)
 		m.lazyGoErr(i+1, k, []string{k}, site)
 		return comp{kind: "throw", p: i + 1, line: site}
-	case "wraperr":
-		k := "w" + itoa(i)
+	case "wraperr", "customwrap":
+		k := map[string]string{"wraperr": "w", "customwrap": "cw"}[f.B] + itoa(i)
 		m.lazyGoErr(i+1, k, append([]string{k}, inner...), site)
+		return comp{kind: "throw", p: i + 1, line: site}
+	case "joinerr": // errors.Join(err, extra)
+		k := "j" + itoa(i)
+		m.lazyGoErr(i+1, k, append([]string{k, "jx" + itoa(i)}, inner...), site)
 		return comp{kind: "throw", p: i + 1, line: site}
 	case "newgoerr":
 		key := exKey(i)
